@@ -1,16 +1,21 @@
+from __future__ import annotations
+
 import struct
 from pathlib import Path
 
 
-def calc_modular_checksum(file_path: Path) -> bytes:
-    """Calculates the modular checksum for a file in one go."""
+def calc_modular_checksum(file_path: Path, size: int | None = None) -> bytes:
+    """Calculates the modular checksum for a file in one go. If a size is given, only that many
+    bytes from the start of the file are covered."""
     checksum = 0
 
     with open(file_path, "rb") as file:
         while True:
-            data = file.read(4)
+            data = file.read(4 if size is None else min(4, size))
             if not data:
                 break
+            if size is not None:
+                size -= len(data)
             checksum += int.from_bytes(data.ljust(4, b"\0"), byteorder="big", signed=False)
 
     checksum %= 2**32
